@@ -32,7 +32,10 @@ New(kind, backend, unify, reserved, cap, minseg) ==
    cursor |-> doff, fl |-> <<>>, disc |-> 0, minseg |-> minseg, refs |-> 1,
    mem |-> [i \in 0..(cap - 1) |-> IF i < reserved THEN ReservedPattern ELSE IF i < doff THEN UNK ELSE 0],
    live |-> [x \in {} |-> 0], leaked |-> {}, nextId |-> 1,
-   first |-> TRUE, truncated |-> FALSE, rewound |-> FALSE]
+   first |-> TRUE, truncated |-> FALSE, rewound |-> FALSE,
+   \* other arena values of the same arena (Clone), newest last: each caches the capacity it saw when it was made
+   \* (unsync.rs:138-141, sync.rs likewise: `ptr` and `cap` are fields of the value, not of the shared Memory)
+   clones |-> <<>>]
 
 Obs(st) == [alloc |-> st.cursor, disc |-> st.disc, rem |-> st.cap - st.cursor, cap |-> st.cap,
             minseg |-> st.minseg, refs |-> st.refs, doff |-> st.doff, fl |-> st.fl, fltrunc |-> FALSE]
@@ -220,7 +223,7 @@ Rewind(st, p, v, fixed) ==
 Clear(st) ==
   [st EXCEPT !.cursor = st.doff, !.fl = <<>>, !.disc = 0,
              !.mem = [i \in DOMAIN st.mem |-> IF i >= st.doff /\ i < st.cap THEN 0 ELSE st.mem[i]],
-             !.live = [x \in {} |-> 0], !.leaked = {}, !.refs = 1, !.nextId = 1,
+             !.live = [x \in {} |-> 0], !.leaked = {}, !.refs = 1 + Len(st.clones), !.nextId = 1,
              !.first = TRUE, !.rewound = FALSE]
 
 \* unsync::Arena::truncate + Memory::truncate (memory.rs:156): Vec / anon copy [0, allocated) into fresh zeroed
@@ -235,7 +238,10 @@ Truncate(st, n) ==
              !.mem = IF st.backend = "file"
                      THEN [i \in 0..(Max(len, size) - 1) |-> IF i < len THEN st.mem[i] ELSE 0]
                      ELSE [i \in 0..(size - 1) |-> IF i < st.cursor THEN st.mem[i] ELSE 0],
-             !.live = [x \in {} |-> 0], !.leaked = leakedAll, !.refs = 1, !.truncated = TRUE]
+             \* truncate(&mut self) updates the cached `ptr`/`cap` of the value it is called on only (unsync.rs:568-571):
+             \* every other arena value keeps the capacity (and the base pointer) of the old mapping
+             !.clones = [i \in 1..Len(st.clones) |-> [st.clones[i] EXCEPT !.stale = TRUE]],
+             !.live = [x \in {} |-> 0], !.leaked = leakedAll, !.refs = 1 + Len(st.clones), !.truncated = TRUE]
 
 \* close + map_mut reopen (memory.rs map_mut_in, reopen branch): handles are given up, the mapping covers `cap`
 \* bytes (0 = the whole file; the file grows when it is shorter), bytes above the stored cursor are zeroed
@@ -246,7 +252,7 @@ ReopenMut(st, capArg) ==
       leakedAll == st.leaked \cup {AsLeak(st.live[h]) : h \in DOMAIN st.live} IN
   [st EXCEPT !.cap = cap2,
              !.mem = [i \in 0..(len2 - 1) |-> IF i >= st.cursor /\ i < cap2 THEN 0 ELSE IF i < len THEN st.mem[i] ELSE 0],
-             !.live = [x \in {} |-> 0], !.leaked = leakedAll, !.refs = 1, !.nextId = 1,
+             !.live = [x \in {} |-> 0], !.leaked = leakedAll, !.refs = 1, !.nextId = 1, !.clones = <<>>,
              !.first = FALSE, !.truncated = FALSE]
 
 \* ---------------------------------------------------------------- one call = one step
@@ -254,11 +260,29 @@ ReopenMut(st, capArg) ==
 TypeOf(op) == [size |-> op.s, align |-> op.a]
 OwnedOf(op) == "o" \in DOMAIN op /\ op.o
 
-Step(st, op, fixedRewind) ==
+ViaClone(st, op) == "via" \in DOMAIN op /\ op.via = "clone" /\ Len(st.clones) > 0
+\* an allocation through another arena value: the same shared header, but that value's cached capacity
+Alloc1(st, op) ==
   IF op.k = "ab" THEN AllocBytes(st, op.n, OwnedOf(op))
   ELSE IF op.k = "at" THEN AllocTyped(st, TypeOf(op), OwnedOf(op))
-  ELSE IF op.k = "aa" THEN AllocAligned(st, TypeOf(op), op.n, OwnedOf(op))
+  ELSE AllocAligned(st, TypeOf(op), op.n, OwnedOf(op))
+Step(st, op, fixedRewind) ==
+  IF op.k \in {"ab", "at", "aa"} THEN
+     IF ViaClone(st, op)
+     THEN LET r == Alloc1([st EXCEPT !.cap = st.clones[Len(st.clones)].cap], op) IN [r EXCEPT !.st.cap = st.cap]
+     ELSE Alloc1(st, op)
   ELSE LET ok == [k |-> "ok"] IN
+  IF op.k = "mkclone" THEN [st |-> [st EXCEPT !.clones = Append(st.clones, [cap |-> st.cap, stale |-> FALSE]), !.refs = st.refs + 1],
+                            res |-> ok, zeroOk |-> TRUE]
+  ELSE IF op.k = "dropclone" THEN
+     IF Len(st.clones) = 0 THEN [st |-> st, res |-> [k |-> "skip"], zeroOk |-> TRUE]
+     ELSE [st |-> [st EXCEPT !.clones = SubSeq(st.clones, 1, Len(st.clones) - 1), !.refs = st.refs - 1], res |-> ok, zeroOk |-> TRUE]
+  ELSE IF op.k = "cobs" THEN
+     IF Len(st.clones) = 0 THEN [st |-> st, res |-> [k |-> "skip"], zeroOk |-> TRUE]
+     \* capacity() asks the shared Memory; remaining() uses the cached capacity
+     ELSE [st |-> st, res |-> [k |-> "ok", cap |-> st.cap, alloc |-> st.cursor,
+                               rem |-> Max(st.clones[Len(st.clones)].cap - st.cursor, 0)], zeroOk |-> TRUE]
+  ELSE
   IF op.k = "drop" THEN [st |-> DropHandle(st, op.h), res |-> ok, zeroOk |-> TRUE]
   ELSE IF op.k = "dealloc" THEN [st |-> ExplicitDealloc(st, op.h), res |-> ok, zeroOk |-> TRUE]
   ELSE IF op.k = "leak" THEN [st |-> Leak(st, op.h), res |-> ok, zeroOk |-> TRUE]
